@@ -104,3 +104,6 @@ bin/%: $(B)/bin/% ;
 .PRECIOUS: $(B)/hobj/%.o $(B)/obj/%.o $(B)/bin/%
 
 -include $(wildcard $(B)/obj/*.d) $(wildcard $(B)/hobj/*.d)
+
+# --- C20: the C language interface and its harness (explicit rules win over the patterns above) ---
+include $(VERIF)/harness/c20_build.mk
